@@ -31,7 +31,11 @@ theorem openWalk_visits : ∀ (n : Nat) (s : St), (openWalk n s).2.visits = s.vi
     unfold openWalk
     simp only [St.fetch]
     split
-    · rw [ih]; unfold St.setVarByName; split <;> rfl
+    · rw [ih]; unfold St.setVarByName; split
+      · rfl
+      · split
+        · rfl
+        · split <;> rfl
     · rw [ih]
     · split <;> simp [ih, St.setFile, St.took]
     · split <;> simp [ih, St.setFile, St.took]
@@ -77,6 +81,8 @@ theorem visitsEq_stableOps (v0 : List Visit) : StableOps (fun s => s.visits = v0
   argv s i v h := h
   argc s n h := h
   close s f h := h
+  fname s v h := h
+  fsep s v h := h
   enter s h := h
   leave s h := h
 
